@@ -87,8 +87,28 @@ def gen_cases(ctx, n, prop):
              "script": [list(x) for x in r.choice(SCRIPTS)], "watchdog_s": 25}
         if r.random() < 0.4:
             c["sleep_us"] = [[r.randrange(nch), r.choice([50, 300])]]
+        if prop in ("C11", "C10") and r.random() < 0.25:
+            # controller commands in quick succession while the chains spend most of their time
+            # inside record_sample (holding their trace mutex)
+            c["record_sleep_us"] = r.choice([300, 1000, 2000])
+            c["num_tune"], c["num_draws"] = r.choice([3, 6]), r.choice([8, 12])
+            c["max_sleep_us"] = r.choice([0, 50])
+            storm = []
+            for _ in range(r.randint(15, 40)):
+                storm.append([r.choice(["flush", "flush", "progress", "inspect", "flush"])])
+            c["script"] = [["sleep_ms", r.choice([0, 1, 3])]] + storm + [["wait_until_done"]]
+            c["watchdog_s"] = 8
+        if prop == "C11" and r.random() < 0.35:
+            # divergent draws (recoverable density errors from some evaluation on) so that the
+            # divergence counters have something to count, around the end of warmup in particular;
+            # a final progress call after the chains are done reads the final counters
+            ch = r.randrange(nch)
+            start = r.randint(1, 30)
+            c["logp_faults"] = [[ch, k, "rec"] for k in range(start, start + r.choice([3, 40, 400]))]
+            if "record_sleep_us" not in c and r.random() < 0.7:
+                c["script"] = [["sleep_ms", 2], ["progress"], ["sleep_ms", 400], ["progress"], ["wait_until_done"]]
         if prop == "C13":
-            kind = r.choice(["logp_unrec", "logp_unrec", "expand", "math", "all_init_bad", "rec_only", "two"])
+            kind = r.choice(["logp_unrec", "logp_unrec", "expand", "math", "all_init_bad", "rec_only", "rec_init", "two", "storage"])
             ch = r.randrange(nch)
             total_evals = 40
             if kind == "logp_unrec":
@@ -101,8 +121,17 @@ def gen_cases(ctx, n, prop):
                 c["math_fails"] = [ch]
             elif kind == "all_init_bad":
                 c["all_init_bad"] = [ch]
+            elif kind == "storage":
+                # the storage backend fails in record_sample of one chain at one draw
+                c["record_fail"] = [ch, r.randint(0, max(0, c["num_tune"] + c["num_draws"] - 1))]
+            elif kind == "rec_init":
+                # recoverable errors inside the first initialisation attempts: the retry must succeed
+                k = r.choice([1, 1, 2, 3])
+                c["logp_faults"] = [[ch, i, "rec"] for i in range(k)]
+                if r.random() < 0.5 and nch >= 2:
+                    c["logp_faults"] += [[(ch + 1) % nch, 0, "rec"]]
             else:
-                c["logp_faults"] = [[ch, r.randint(3, total_evals), "rec"], [ch, r.randint(3, total_evals), "nan_logp"]]
+                c["logp_faults"] = [[ch, r.randint(0, total_evals), "rec"], [ch, r.randint(3, total_evals), "nan_logp"]]
             c["fault_kind"] = kind
             c["script"] = [list(x) for x in r.choice([SCRIPTS[0], SCRIPTS[1], SCRIPTS[5], [["sleep_ms", 30], ["abort"]]])]
         if prop == "C12":
@@ -159,7 +188,8 @@ def audit(c, o, prop, reference):
             else:
                 init_fatal += 1
     # a fault counts only if the density really returned it (or construction / initialisation fails)
-    faulty = (any(h[1] > 0 for h in o.get("fatal_hits", [])) or bool(c.get("math_fails")) or bool(c.get("all_init_bad")))
+    faulty = (any(h[1] > 0 for h in o.get("fatal_hits", [])) or bool(c.get("math_fails")) or bool(c.get("all_init_bad"))
+              or o.get("storage_fail_hits", 0) > 0)
     only_init_fatal = init_fatal > 0 and run_fatal == 0 and not c.get("expand_fails") and not c.get("math_fails") and not c.get("all_init_bad")
     started = {e[2] for e in o.get("events", []) if e[0] == "chain" and e[1] == "started"}
     if c.get("all_init_bad") and not (set(c["all_init_bad"]) & started):
@@ -210,14 +240,31 @@ def audit(c, o, prop, reference):
                 if key in seen:
                     bad.append("chains %d and %d recorded identical draws (same random stream?)" % (seen[key], i))
                 seen[key] = i
-    # progress counters agree with the trace
+    # progress counters agree with the trace: a snapshot that reports f finished draws of a chain
+    # must report the divergences and step total of the first f recorded draws of that chain
     last_prog = None
+    tr = oc.get("trace")
     for s_ in o.get("steps", []):
         if s_.get("op") == "progress" and "ok" in s_:
             last_prog = s_["ok"]
             for i, p in enumerate(s_["ok"]):
                 if p["finished"] > total:
                     bad.append("progress: finished_draws %d > total %d" % (p["finished"], total))
+                if tr is None or i >= len(tr) or tr[i].get("diverging") is None or tr[i].get("tuning") is None:
+                    continue
+                f = p["finished"]
+                dv, tn = tr[i]["diverging"], tr[i]["tuning"]
+                if f > len(dv):
+                    continue
+                want = [k for k in range(f) if dv[k] == "1" and tn[k] == "0"]
+                if p["divergences"] != len(want) or list(p["divergent_draws"]) != want:
+                    bad.append("progress of chain %d after %d draws reports divergences=%d at draws %s; the trace has %d post-warmup divergent draws among them: %s"
+                               % (i, f, p["divergences"], p["divergent_draws"][:6], len(want), want[:6]))
+                ns = tr[i].get("n_steps")
+                # (the MCLMC presets have no per-draw leapfrog count under that name)
+                if ns is not None and c["preset"].endswith("nuts") and len(ns) >= f and p["total_steps"] != sum(int(x) for x in ns[:f]):
+                    bad.append("progress of chain %d after %d draws reports %d steps in total; the trace sums to %d"
+                               % (i, f, p["total_steps"], sum(int(x) for x in ns[:f])))
     return bad
 
 
@@ -266,7 +313,7 @@ def run(ctx):
     ctx.oblig("harness-build", ok, out[-3000:])
     if not ok:
         return
-    n = {"C10": 60, "C11": 70, "C12": 40, "C13": 60}[prop] * (1 if quick else 8)
+    n = {"C10": 60, "C11": 120, "C12": 40, "C13": 90}[prop] * (1 if quick else 8)
     cases = gen_cases(ctx, n, prop)
     outs = run_cases(cases, workers=6)
     crashed = [c["id"] for c in cases if "crash" in outs[c["id"]] or outs[c["id"]].get("new") != "ok"]
